@@ -61,6 +61,15 @@ def run(prop, tier, seed, ctx):
     tlc.require_ok(sres, scfg)
     ctx.add_tlc(sres, "query sessions on one root: HistoryIndependent, NothingSurvives " + scfg)
     scases = list(enumerate(sres.records))
+    # ... plus deep random sessions (tlc -simulate): eight queries over ten independent features and both pseudo-queries
+    num = 150 if tier == "quick" else 4000
+    simres = tlc.run("StaticSession", "SIM_StaticSession_deep.cfg", workers=4, timeout=600, simulate="num=%d" % num, extra=["-depth", "10", "-seed", str(1000 + seed)])
+    tlc.require_ok(simres, "simulation SIM_StaticSession_deep.cfg")
+    ctx.add_tlc(simres, "simulation (%d sessions of 8 queries) SIM_StaticSession_deep.cfg" % (4 * num))
+    simrecs = list({json.dumps(r, sort_keys=True): r for r in simres.records}.values())
+    if len(simrecs) < num:
+        raise MachineryError("simulation exported only %d sessions" % len(simrecs))
+    scases += list(enumerate(simrecs))
     smism = shard_map("bind.static", "session_replay_chunk", scases)
     ctx.cov["replayed_cases"] += len(scases)
     ctx.count(len(scases), ("session:" + json.dumps(r, sort_keys=True) for _, r in scases if len({h["f"] for h in r["hist"]}) > 1))
